@@ -942,7 +942,8 @@ func showInMarkdownCodeBlock(env *env, out io.Writer, value any, spaces bool) er
 func showTimeInJS(tt time.Time) string {
 	y := tt.Year()
 	if y < -999999 || y > 999999 {
-		panic("not representable year in JavaScript")
+		// The year cannot be represented in a JavaScript date time string.
+		return "undefined/* scriggo: cannot represent a time.Time value with a year outside the range [-999999, 999999] */"
 	}
 	ms := int64(tt.Nanosecond()) / int64(time.Millisecond)
 	name, offset := tt.Zone()
